@@ -18,10 +18,11 @@ from .core import HarnessError
 
 KINDS = ("select", "asyncio", "tornado", "twisted", "zmq", "trio")
 
-for _n in ("tornado.application", "tornado.general", "tornado.access", "asyncio", "twisted"):
+for _n in ("tornado.application", "tornado.general", "tornado.access", "asyncio", "twisted", "trio", "trio.abc.Instrument"):
     logging.getLogger(_n).setLevel(logging.CRITICAL + 1)
 logging.getLogger("tornado.application").propagate = False
 logging.getLogger("asyncio").propagate = False
+logging.getLogger("trio.abc.Instrument").propagate = False
 
 
 class LoopBox:
